@@ -5,6 +5,13 @@ Confirms an adversary's mutant independently (tools/confirm_mutant.sh), runs our
 import json, os, re, shutil, subprocess, sys
 src, name, prop, dest, pkg = sys.argv[1:6]
 run = sys.argv[6] if len(sys.argv) > 6 else "."
+claimed = None
+if prop == "ALL":
+    prop = ",".join("C%02d" % i for i in range(1, 21))
+    try:
+        claimed = json.load(open(os.path.join(src, "meta.json"))).get("property")
+    except Exception:
+        pass
 V = "/verif"
 conf = subprocess.run([f"{V}/tools/confirm_mutant.sh", src, dest, pkg, run], capture_output=True, text=True).stdout.strip().splitlines()[-1]
 conf = json.loads(conf)
@@ -29,9 +36,9 @@ for f in os.listdir(src):
     if f.startswith("demo"):
         if os.path.isdir(os.path.join(src, f)): shutil.copytree(os.path.join(src, f), os.path.join(out, f), dirs_exist_ok=True)
         else: shutil.copy(os.path.join(src, f), out)
-json.dump(dict(property=prop, breaks=meta.get("what"), needs=meta.get("needs"), adversary_ran=meta.get("ran"),
+json.dump(dict(property=(claimed or prop), checked_against=prop, breaks=meta.get("what"), needs=meta.get("needs"), adversary_ran=meta.get("ran"),
                demo=dict(place_at=dest, run=f"go test -vet=off -count=1 -run '{run}' {pkg}"),
                confirmed_by_main=conf, confirmed_cmd=f"tools/confirm_mutant.sh seeded/{name} {dest} {pkg} {run}",
                our_checks=detected, checked_cmd=f"tools/mutcheck.sh seeded/{name}/patch.diff {prop.replace(',', ' ')}"),
           open(os.path.join(out, "meta.json"), "w"), indent=1)
-print(name, "confirmed", {p: d["exit"] for p, d in detected.items()})
+print(name, "claimed", claimed or prop, "caught_by", [p for p, d in detected.items() if d["exit"] == 1])
